@@ -252,9 +252,10 @@ def _qnsolver(case):
     rpts = np.asarray(rs.greville, dtype=float)
     nr, nz = len(rpts), 2
     qdeg = 7
-    n0 = lambda r: init.n0(r, c.CN0, c.kN0, c.deltaRN0, c.rp)                      # noqa
-    Te = lambda r: init.Te(r, c.CTe, c.kTe, c.deltaRTe, c.rp)                      # noqa
-    g = lambda r: init.n0deriv_normalised(r, c.kN0, c.rp, c.deltaRN0)              # noqa
+    # profiles of the reference are coded independently of the library (pgv.ops)
+    n0 = lambda r: ops.n0_ref(c, r)                      # noqa
+    Te = lambda r: ops.te_ref(c, r)                      # noqa
+    g = lambda r: ops.dlogn0_ref(c, r)                   # noqa
     Bf = case['B']
     prof = case.get('prof', 'default')
     pkw = {}
